@@ -240,6 +240,7 @@ def compare(T, counts, idents, natural, comps, rows, srow, devs, mon, where=''):
     mon['counts_compared'] += len(exp_m)
     bad = {k: (obs_m.get(k), exp_m.get(k)) for k in set(exp_m) | set(obs_m)
            if k not in obs_m or k not in exp_m or not close(obs_m[k], exp_m[k], RTOL)}
+    n0 = len(devs)
     if bad:
         devs.append(dev(where + 'species-count-differs', dict(observed_vs_expected=bad)))
     for k, row in rows.items():
@@ -250,20 +251,22 @@ def compare(T, counts, idents, natural, comps, rows, srow, devs, mon, where=''):
         mon['species_rows_compared'] += 1
         for c in ('mass', 'Z', 'N', 'e'):
             if not close(row[c], d[c], RTOL, 1e-12):
-                devs.append(dev(where + 'species-%s-differs' % c, dict(species=k, observed=row[c], expected=d[c],
-                                                                        natural=natural)))
+                devs.append(dev('species-%s-differs' % c, dict(species=k, observed=row[c], expected=d[c],
+                                                               natural=natural, where=where or 'formula')))
         if k in comps and not close(row['count'], comps[k], RTOL):
             devs.append(dev(where + 'count-column-differs-from-proportion', dict(species=k, row=row['count'], comp=comps[k])))
     if set(rows) != set(comps):
         devs.append(dev(where + 'component-rows-missing', dict(rows=list(rows), components=list(comps))))
     tot = R.totals(T, counts, idents, natural)
+    if len(devs) > n0:
+        return          # the sum row of a substance whose counts / species data already deviate adds nothing
     if srow is None:
         devs.append(dev(where + 'no-sum-row', None))
     else:
         mon['sum_rows_compared'] += 1
         for c in ('mass', 'Z', 'N', 'e'):
             if not close(srow[c], tot[c], RTOL, 1e-9 if c != 'mass' else 1e-12):
-                devs.append(dev(where + 'sum-%s-differs' % c, dict(observed=srow[c], expected=tot[c])))
+                devs.append(dev('sum-%s-differs' % c, dict(observed=srow[c], expected=tot[c], where=where or 'formula')))
 
 
 def defined(T, idents, natural):
@@ -304,16 +307,24 @@ def _run(case, ctx):
         return _finish(ctx, outcome(skip='species-without-defined-data (no abundance / no such isotope)'))
 
     def build(tree, label):
-        """Substance(text) or (None, classified deviation)"""
+        """Substance(text) or (None, classified deviation); operands of an arithmetic case are checked like a formula case
+        first, so that a parsing deviation is not reported a second time as an arithmetic one"""
         tx = R.render(tree)
         try:
-            return M.Substance(tx, natural=natural)
+            sub = M.Substance(tx, natural=natural)
         except Exception as e:
             if known_group_defect(tree, e):
                 devs.append(dev('formula-rejected', dict(formula=tx, exc=repr(e)), known=KEY_GROUP))
             else:
                 devs.append(dev('formula-rejected:' + type(e).__name__, dict(formula=tx, which=label, exc=repr(e)[:300])))
             return None
+        if label != 'formula':
+            c0, i0 = R.expand(tree)
+            n0 = len(devs)
+            compare(T, c0, i0, natural, *observe(sub), devs, mon)
+            if len(devs) > n0:
+                return None
+        return sub
 
     sample = dict(kind=t, formula=text, natural=natural, expected_counts=counts)
     fp = '%s|%s|%s' % (t, text, natural)
